@@ -83,7 +83,10 @@ func (t *Term) Atoms() map[string]bool {
 				n = n[:i]
 			}
 			m["alloc:"+n] = true
-		case "len", "not", "phi", "index", "slice", "lookup", "next", "range", "closure", "typeassert", "recv":
+		case "slice":
+			m[x.Op] = true
+			m["slice:"+x.Name] = true
+		case "len", "not", "phi", "index", "lookup", "next", "range", "closure", "typeassert", "recv":
 			m[x.Op] = true
 		default:
 			if strings.HasPrefix(x.Op, "binop") {
@@ -164,7 +167,13 @@ func (t *Term) Has(pats ...string) bool {
 					t = t.Args[0]
 				}
 			}
-			if t.Op != p[1:] && !nameMatch(t.Op+":"+t.Name, p[1:]) && !(strings.Contains(p, ":") && t.Op == p[1:strings.Index(p, ":")] && nameMatch(t.Name, p[strings.Index(p, ":")+1:])) {
+			okRoot := false
+			for _, rt := range rootCandidates(t, 0) {
+				if rt.Op == p[1:] || nameMatch(rt.Op+":"+rt.Name, p[1:]) || (strings.Contains(p, ":") && rt.Op == p[1:strings.Index(p, ":")] && nameMatch(rt.Name, p[strings.Index(p, ":")+1:])) {
+					okRoot = true
+				}
+			}
+			if !okRoot {
 				return false
 			}
 			continue
@@ -176,9 +185,52 @@ func (t *Term) Has(pats ...string) bool {
 	return true
 }
 
+// rootCandidates: the term itself and, for a call of an inlined helper (possibly under an extract), the helper's
+// result expression: "the value is a slice of X" holds whether the slicing is written inline or in a private helper.
+func rootCandidates(t *Term, d int) []*Term {
+	out := []*Term{t}
+	if d > 3 {
+		return out
+	}
+	u := t
+	if u.Op == "extract" && len(u.Args) == 1 {
+		u = u.Args[0]
+	}
+	if u.Op == "call" && len(u.Args) > 0 {
+		if inl := u.Args[len(u.Args)-1]; inl.Op == "inlined" && len(inl.Args) == 1 {
+			r := inl.Args[0]
+			for (r.Op == "local" || r.Op == "phi") && len(r.Args) == 1 {
+				r = r.Args[0]
+			}
+			out = append(out, rootCandidates(r, d+1)...)
+		}
+	}
+	return out
+}
+
 type renderer struct {
 	seen  map[ssa.Value]*Term
 	depth int
+	// helper inlining: parameters of an inlined helper render as the caller's argument terms
+	env      map[*ssa.Parameter]*Term
+	inlDepth int
+}
+
+// inlineHelpers: see through calls of small private helpers (single basic block, package-level, unexported, repo code):
+// the call term keeps its name and arguments and gets one more child "inlined(result terms)" rendered with the
+// caller's arguments substituted, so that moving an expression into such a helper does not hide it from the rules.
+var inlineHelpers = true
+
+func inlinableHelper(f *ssa.Function) *ssa.Return {
+	if !inlineHelpers || f == nil || len(f.Blocks) != 1 || f.Parent() != nil || f.Signature.Recv() != nil || token.IsExported(f.Name()) || !inRepoScope(f) {
+		return nil
+	}
+	b := f.Blocks[0]
+	if len(b.Instrs) == 0 || len(b.Instrs) > 40 {
+		return nil
+	}
+	rt, _ := b.Instrs[len(b.Instrs)-1].(*ssa.Return)
+	return rt
 }
 
 // Render renders an SSA value to a Term, seeing through conversions, single-store locals and loads.
@@ -367,6 +419,9 @@ func (r *renderer) render1(v ssa.Value, d int) *Term {
 	case *ssa.Const:
 		return &Term{Op: "const", Name: constString(x)}
 	case *ssa.Parameter:
+		if t, ok := r.env[x]; ok {
+			return t
+		}
 		return &Term{Op: "param", Name: frozenParamName(x)}
 	case *ssa.FreeVar:
 		return &Term{Op: "freevar", Name: frozenFreeVarName(x)}
@@ -390,9 +445,32 @@ func (r *renderer) render1(v ssa.Value, d int) *Term {
 			name = "<dynamic>"
 		}
 		as = append(as, x.Call.Args...)
-		return &Term{Op: "call", Name: name, Args: r.args(d, as...)}
+		ct := &Term{Op: "call", Name: name, Args: r.args(d, as...)}
+		if rt := inlinableHelper(x.Call.StaticCallee()); rt != nil && r.inlDepth < 2 && d < 20 {
+			callee := x.Call.StaticCallee()
+			sub := &renderer{seen: map[ssa.Value]*Term{}, env: map[*ssa.Parameter]*Term{}, inlDepth: r.inlDepth + 1}
+			for i, p := range callee.Params {
+				if i < len(ct.Args) {
+					sub.env[p] = ct.Args[i]
+				}
+			}
+			inl := &Term{Op: "inlined"}
+			for _, res := range rt.Results {
+				inl.Args = append(inl.Args, sub.render(res, d+1))
+			}
+			ct.Args = append(ct.Args, inl)
+		}
+		return ct
 	case *ssa.Extract:
 		tup := r.render(x.Tuple, d+1)
+		if tup.Op == "call" && len(tup.Args) > 0 {
+			if inl := tup.Args[len(tup.Args)-1]; inl.Op == "inlined" && x.Index < len(inl.Args) {
+				// keep only the extracted result of the inlined helper
+				cp := *tup
+				cp.Args = append(append([]*Term{}, tup.Args[:len(tup.Args)-1]...), &Term{Op: "inlined", Args: []*Term{inl.Args[x.Index]}})
+				tup = &cp
+			}
+		}
 		return &Term{Op: "extract", Name: fmt.Sprint(x.Index), Args: []*Term{tup}}
 	case *ssa.FieldAddr:
 		if a, ok := x.X.(*ssa.Alloc); ok {
@@ -418,7 +496,16 @@ func (r *renderer) render1(v ssa.Value, d int) *Term {
 		if x.High != nil {
 			as = append(as, x.High)
 		}
-		return &Term{Op: "slice", Args: r.args(d, as...)}
+		shape := "full"
+		switch {
+		case x.Low != nil && x.High != nil:
+			shape = "lohi"
+		case x.Low != nil:
+			shape = "lo"
+		case x.High != nil:
+			shape = "hi"
+		}
+		return &Term{Op: "slice", Name: shape, Args: r.args(d, as...)}
 	case *ssa.UnOp:
 		switch x.Op {
 		case token.MUL: // load
